@@ -364,7 +364,8 @@ class Walker:
                     if kt is None or kt.kind not in ("dq", "sq") or reader.string_content(kt).lower() != ck.lower():
                         self.rep.c("config-key-changed", f"{kpath}: CONFIG key {ck!r} written as {(kt.text[:40] if kt else None)!r}")
                         raise Walker.Desync()
-                    self.quoted_value(cv, f"{kpath}.{ck}")
+                    # CONFIG values are strings in MapServer: a number stored there is written as the quoted numeral
+                    self.quoted_value(cv if isinstance(cv, str) else str(cv), f"{kpath}.{ck}")
                     self.stmt("config", depth + 1, f)
             elif isinstance(v, dict) and "__type__" in v:
                 self.obj(v, depth + 1, kpath)
